@@ -348,13 +348,20 @@ func (repo *BlockRepository) Revert(ctx context.Context, height int) error {
 		return errors.New(fmt.Sprintf("Revert height %d above current height %d", height, repo.height))
 	}
 
-	// Revert heights map
+	// Make sure the latest file in storage is current, because it is read back below.
+	if err := repo.save(ctx); err != nil {
+		return errors.Wrap(err, "Failed to save before revert")
+	}
+
+	// Collect the hashes to remove from the heights map. The repository is only modified after
+	// all steps that can fail, so that a failed revert leaves it unchanged.
+	removeHashes := make([]bitcoin.Hash32, 0, repo.height-height)
 	for removeHeight := repo.height; removeHeight > height; removeHeight-- {
 		hash, err := repo.getHash(ctx, removeHeight)
 		if err != nil {
 			return errors.Wrap(err, "Failed to revert block heights map")
 		}
-		delete(repo.heights, *hash)
+		removeHashes = append(removeHashes, *hash)
 	}
 
 	// Height of last block of latest full file
@@ -387,7 +394,7 @@ func (repo *BlockRepository) Revert(ctx context.Context, height int) error {
 	}
 
 	// Cache needs to be reset with last file's state.
-	repo.lastHeaders = make([]wire.BlockHeader, 0, blocksPerKey)
+	lastHeaders := make([]wire.BlockHeader, 0, blocksPerKey)
 	buf := bytes.NewBuffer(data)
 	header := wire.BlockHeader{}
 	for buf.Len() > 0 {
@@ -395,8 +402,14 @@ func (repo *BlockRepository) Revert(ctx context.Context, height int) error {
 		if err != nil {
 			return errors.Wrap(err, fmt.Sprintf("Failed to parse latest block data during truncate : %s", path))
 		}
-		repo.lastHeaders = append(repo.lastHeaders, header)
+		lastHeaders = append(lastHeaders, header)
 	}
+
+	// Revert heights map
+	for _, hash := range removeHashes {
+		delete(repo.heights, hash)
+	}
+	repo.lastHeaders = lastHeaders
 	repo.height = height
 	return nil
 }
